@@ -19,26 +19,26 @@ CONTROL = set("CIAOQYGM")
 #   fields : fields of the S (state) line, likewise
 #   mon    : monitor number in coq/model/Monitors.v
 PROPS = {
-    "C01": dict(n=1, tags="N", fields=[], title="offered steps = legal Arimaa steps"),
-    "C02": dict(n=2, tags="", fields=["board"], title="step effect and captures"),
-    "C03": dict(n=3, tags="", fields=["side", "move_no", "phase", "step", "trapped"], title="turn structure"),
-    "C04": dict(n=4, tags="T0", fields=[], title="result order"),
-    "C05": dict(n=5, tags="V", fields=["hist", "init_hash"], title="no unchanged turn / third repetition"),
-    "C06": dict(n=6, tags="V", fields=["hist", "init_hash", "trapped"], title="repetition filter exact"),
-    "C07": dict(n=7, tags="VT", fields=[], title="liveness and summary queries"),
-    "C08": dict(n=8, tags="HF", fields=["hash", "hist", "init_hash"], title="hash = from-scratch hash"),
-    "C09": dict(n=9, tags="N", fields=["board", "side", "move_no", "phase"], title="setup", gens=["setup"]),
-    "C10": dict(n=10, tags="D", fields=["board"], title="consistent views"),
-    "C11": dict(n=11, tags="", fields=[], title="symmetry"),
-    "C12": dict(n=12, tags="N", fields=["pps"], title="push/pull status"),
-    "C13": dict(n=13, tags="K", fields=[], title="capture preview"),
-    "C14": dict(n=14, tags="B", fields=["prev"], title="earlier boards of the turn"),
-    "C15": dict(n=15, tags="DRE4", fields=[], title="diagram round trip, parser totality"),
-    "C16": dict(n=16, tags="PZ", fields=[], title="notation round trip, parser totality"),
-    "C17": dict(n=17, tags="H", fields=[], title="one-feature hash sensitivity", gens=["tables"]),
-    "C18": dict(n=18, tags="", fields=[], title="Send + Sync, concurrent expansion"),
-    "C19": dict(n=19, tags="X", fields=[], title="no panics"),
-    "C20": dict(n=20, tags="", fields=[], title="stack use independent of history length"),
+    "C01": dict(n=1, tags=['N'], fields=[], title="offered steps = legal Arimaa steps"),
+    "C02": dict(n=2, tags=[], fields=["board"], title="step effect and captures"),
+    "C03": dict(n=3, tags=[], fields=["side", "move_no", "phase", "step", "trapped"], title="turn structure"),
+    "C04": dict(n=4, tags=['T0'], fields=[], title="result order"),
+    "C05": dict(n=5, tags=['V'], fields=["hist", "init_hash"], title="no unchanged turn / third repetition"),
+    "C06": dict(n=6, tags=['V'], fields=["hist", "init_hash", "trapped"], title="repetition filter exact"),
+    "C07": dict(n=7, tags=['V', 'T'], fields=[], title="liveness and summary queries"),
+    "C08": dict(n=8, tags=['H', 'F'], fields=["hash", "hist", "init_hash"], title="hash = from-scratch hash"),
+    "C09": dict(n=9, tags=['N'], fields=["board", "side", "move_no", "phase"], title="setup", gens=["setup"]),
+    "C10": dict(n=10, tags=['D'], fields=["board"], title="consistent views"),
+    "C11": dict(n=11, tags=[], fields=[], title="symmetry"),
+    "C12": dict(n=12, tags=['N'], fields=["pps"], title="push/pull status"),
+    "C13": dict(n=13, tags=['K'], fields=[], title="capture preview"),
+    "C14": dict(n=14, tags=['B'], fields=["prev"], title="earlier boards of the turn"),
+    "C15": dict(n=15, tags=['D', 'R', 'E', '4'], fields=[], title="diagram round trip, parser totality"),
+    "C16": dict(n=16, tags=['P', 'Z'], fields=[], title="notation round trip, parser totality"),
+    "C17": dict(n=17, tags=['H'], fields=[], title="one-feature hash sensitivity", gens=["tables"]),
+    "C18": dict(n=18, tags=[], fields=[], title="Send + Sync, concurrent expansion"),
+    "C19": dict(n=19, tags=['X'], fields=[], title="no panics"),
+    "C20": dict(n=20, tags=[], fields=[], title="stack use independent of history length"),
 }
 NUM2PROP = {v["n"]: k for k, v in PROPS.items()}
 
@@ -418,6 +418,9 @@ def job_run(args):
                 what.append("4" if ca.split()[1] == "4" else "P")
             else:
                 what.append(t)
+        if any(w.startswith("S.") for w in what):
+            # the state itself differs: the other observations of this block differ as a consequence
+            what = [w for w in what if w.startswith("S.") or w == "X"]
         if what:
             case_bad = c0 not in "QYG"
             diffs.append((case_i, i, ",".join(what),
@@ -1096,6 +1099,7 @@ MON_DOC = {
     (10, 4): "unsupported piece left on a trap",
     (11, 1): "symmetric image of the game behaves differently",
     (12, 1): "status after the step <> rule", (12, 2): "status pending at turn start", (12, 3): "push pending but no completion offered",
+    (12, 4): "while a push is pending the rule-only list is not exactly the completions of the square-level rule",
     (13, 1): "preview differs from the model", (13, 2): "a step removed more than one piece", (13, 3): "model preview <> removed piece",
     (13, 4): "implementation's preview <> piece actually removed",
     (14, 1): "piece_board_for_step <> recorded boards", (14, 2): "recorded boards not extended by the current board",
